@@ -14,7 +14,7 @@ from bvm.gen import Gen
 PROP = "C15"
 RULE = ("creation histories of up to N mixed creations (generic DiameterRequest, the typed request classes, answers, "
         "requests/answers from an explicit header) x random sources {os.urandom, 8-bit entropy, every value repeated r "
-        "times, cyclic, previously-issued-value-first}; concurrent creation from 2..6 tasks under the deterministic "
+        "times, cyclic, previously-issued-value-first, values over a two-byte alphabet}; concurrent creation from 2..6 tasks under the deterministic "
         "scheduler with line-level preemption inside the two identifier functions; oracle: set membership over all "
         "issued ids + draw counting; distinct = (source, history shape) / distinct schedules")
 
@@ -58,6 +58,15 @@ class Source:
                 v = self.issued[r.randrange(min(len(self.issued), 64))] if r.random() < 0.5 else r.choice(self.issued)
             else:
                 v = r.randrange(2 ** 32).to_bytes(4, "big")
+        elif k == "two-byte-alphabet":
+            # values made of two byte values only (00000001, 00000100, 01000000 ...): they repeat often, and each of them also
+            # occurs *across the boundary* of two others written back to back - nothing but a whole earlier identifier is a reuse
+            if not hasattr(self, "alphabet"):
+                self.alphabet = r.choice([(0, 1), (0, 1), (0xaa, 0xbb), (0, 0xff), (r.randrange(256), r.randrange(256))])
+            if r.random() < 0.8:
+                v = bytes(r.choice(self.alphabet) for _ in range(4))
+            else:
+                v = r.randrange(2 ** 32).to_bytes(4, "big")
         elif k == "zero-then-random":
             v = bytes(4) if self.calls % 3 else r.randrange(2 ** 32).to_bytes(4, "big")
         else:
@@ -83,7 +92,7 @@ def history(acc, g, kind, n, typed_requests, typed_answers):
     hbh, e2e = {}, {}
     trace = []
     r = g.rng
-    limit = 180 if kind == "low8" else n
+    limit = 180 if kind == "low8" else 60 if kind == "two-byte-alphabet" else n
     for step in range(limit):
         op = r.choice(["req", "req", "typed", "typed", "ans", "typed-ans", "req-hdr", "ans-hdr"])
         calls0 = src.calls
@@ -156,13 +165,15 @@ def run_batch(b):
 def main(tier, seed):
     t0 = time.time()
     q = tier == "quick"
-    sources = ["true", "low8", "repeat2", "repeat4", "repeat7", "cyclic", "previous-first", "zero-then-random"]
+    sources = ["true", "low8", "repeat2", "repeat4", "repeat7", "cyclic", "previous-first", "zero-then-random", "two-byte-alphabet"]
     batches = []
     for i in range(4 if q else 16):
         # long lives: thousands of creations, with values from the beginning of the history coming back at the end
         batches.append({"kind": "hist", "sources": ["any-previous-first"], "reps": 1, "n": 2600 if q else 12000, "seed": seed * 11 + i})
     for i in range(8 if q else 32):
         batches.append({"kind": "hist", "sources": sources, "reps": 1 if q else 3, "n": 600 if q else 5000, "seed": seed * 7 + i})
+    for i in range(2 if q else 16):
+        batches.append({"kind": "hist", "sources": ["two-byte-alphabet"], "reps": 40 if q else 400, "n": 60, "seed": seed * 13 + i})
     try:
         from checks import conc_c15 as c15_conc
         batches += c15_conc.plan(tier, seed)
